@@ -102,6 +102,8 @@ structure Inv (v : Nat) (s : St) : Prop where
   postC : ∀ f c, s.pc f = .postCas c → 0 ≤ c
   slotP : ∀ k w, s.slot k = some w → s.pc w = .waitParked
   slotI : ∀ k k' w, s.slot k = some w → s.slot k' = some w → k = k'
+  /-- a dequeued waiter that has not been made READY yet has a post about to do so -/
+  handed : ∀ g, s.pc g = .waitHanded → ∃ f, s.pc f = .popped g
 
 theorem inv_init (v node0 : Nat) : Inv v (init v node0) := by
   constructor <;> simp [init, Tracks, isPend, isQueued, isPre, isMid, isAdm] <;> omega
@@ -134,7 +136,7 @@ local macro "arith" hi:term : tactic =>
 /-- facts about pc payloads and the deferred-push slots after one step -/
 local macro "pcfacts" hi:term : tactic =>
   `(tactic| (have q1 := ($hi).tryC; have q2 := ($hi).postC; have q3 := ($hi).slotP
-             have q4 := ($hi).slotI
+             have q4 := ($hi).slotI; have q5 := ($hi).handed
              intros
              simp [upd] at *
              grind))
